@@ -5,12 +5,12 @@
 # usage: confirm_mutants.sh <out.tsv> <dir-with-X.patch.diff-and-demo>...
 set -u
 OUT="$1"; shift
-WT=/tmp/confirm-wt
+WT=${CONFIRM_WT:-/tmp/confirm-wt}
 export CARGO_NET_OFFLINE=true
 export CARGO_INCREMENTAL=0   # an incremental-compilation ICE of rustc 1.95 once turned a demo into a false FAIL
 if [ ! -d $WT ]; then git -C /repo worktree add --detach $WT HEAD >/dev/null 2>&1 || exit 2; fi
 git -C $WT checkout -q --detach "$(git -C /repo rev-parse HEAD)"; git -C $WT checkout -q -- . ; rm -f $WT/tests/demo_*.rs
-export CARGO_TARGET_DIR=/tmp/confirm-target
+export CARGO_TARGET_DIR=${CONFIRM_TARGET:-/tmp/confirm-target}
 : > "$OUT"
 for D in "$@"; do
   for V in A B; do
@@ -24,16 +24,16 @@ for D in "$@"; do
     if [ -n "$demo" ]; then
       cp "$demo" tests/
       t=$(basename "$demo" .rs)
-      if nice cargo test --offline --all-features --test "$t" >/tmp/confirm.log 2>&1; then pre="pass"; else pre="FAIL"; fi
+      if nice cargo test --offline --all-features --test "$t" >$WT.log 2>&1; then pre="pass"; else pre="FAIL"; fi
       rm -f tests/demo_*.rs
     fi
     if git apply "$P" 2>/dev/null; then
-      if nice cargo build --offline --all-features >/tmp/confirm.log 2>&1; then build="ok"; else build="FAIL"; fi
+      if nice cargo build --offline --all-features >$WT.log 2>&1; then build="ok"; else build="FAIL"; fi
       r=$(nice cargo test --workspace --no-fail-fast --offline 2>&1 | grep -E "^test result" | tr '\n' ' ')
       suite=$(echo "$r" | sed 's/test result: //g; s/; 0 measured; 0 filtered out//g; s/finished in [0-9.]*s//g')
       if [ -n "$demo" ]; then
         cp "$demo" tests/
-        if nice cargo test --offline --all-features --test "$t" >/tmp/confirm.log 2>&1; then post="pass(!)"; else post="fail"; fi
+        if nice cargo test --offline --all-features --test "$t" >$WT.log 2>&1; then post="pass(!)"; else post="fail"; fi
         rm -f tests/demo_*.rs
       fi
     else
